@@ -151,6 +151,12 @@ func init() {
 				}
 				add(c15Params{Fault: "none", NumVB: 2 + rng.Intn(5), Nodes: 1 + rng.Intn(2), ExpectStart: true}, 60)
 			}
+			// a member that owns several hundred vBuckets on a node that answers stream requests slowly: every one of them is
+			// requested (own random source: the cases above keep their parameters)
+			wr := rand.New(rand.NewSource(seed*83 + 11))
+			for k := 0; k < reps/2+1; k++ {
+				add(c15Params{Fault: "wide", NumVB: 160 + wr.Intn(360), Nodes: 1 + wr.Intn(2), ExpectStart: true, WaitMs: 300, Status: 2 + wr.Intn(6)}, 90)
+			}
 			// a failing failover-log query of the rollback mitigation's start-up (no checkpoint reset involved)
 			// (temporary failure and busy included: for this query they are errors like any other)
 			for k, st := range []int{0x24, 0x84, 0x86, 0x85} {
@@ -368,6 +374,10 @@ func runC15(sc drv.Scenario) drv.Result {
 			_ = reported
 			if start > h {
 				drv.NoteFlush("AHEAD vb=%d start=%d high-seqno-reported=%d", r.VB, start, h)
+			}
+			if p.Fault == "wide" {
+				// Status doubles as the answer delay in ms; answers overtake each other as they do on a loaded node
+				return &cbsim.Action{Delay: time.Duration(p.Status) * time.Millisecond, Async: true}
 			}
 			if p.Fault == "open" && in(int(r.VB)) && nreq[int(r.VB)] == 1 {
 				return act()
